@@ -1436,6 +1436,9 @@ class ArgumentParser(ParserDeprecations, ActionsContainer, ArgumentLinking, argp
                 return value
             subparser = action._name_parser_map[leaf_key]  # type: ignore[attr-defined]
             subparser.validate(value, _prefix=key + ".")
+        elif isinstance(action, ActionConfigFile):
+            if value is not None and not isinstance(value, list):
+                raise TypeError(f'Parser key "{key}": expected the list of loaded config files, got: {value!r}')
         elif isinstance(action, _ActionConfigLoad):
             if isinstance(value, str):
                 value = action.check_type(value, self)
